@@ -421,7 +421,8 @@ def classify_func(case):
 @st.composite
 def tables(draw):
     npt = draw(st.one_of(st.integers(2, 40), st.integers(2, 5)))
-    h = 10.0 ** draw(st.floats(-3, 3))
+    # abscissa scale: mostly moderate, one table in three tiny or huge ("tiny and huge widths")
+    h = 10.0 ** draw(st.one_of(st.floats(-3, 3), st.floats(-3, 3), st.floats(-12, 12)))
     inc = draw(st.lists(st.floats(0.05, 1.0), min_size=npt - 1, max_size=npt - 1))
     x0 = h * draw(st.floats(-100, 100))
     xs = [x0]
